@@ -237,7 +237,7 @@ def run(ctx):
     ctx.cov["large_input_runs"] = {"mutations": sizes, "all_completed": all(not o["problems"] for o in bres)}
     n = 1200 if ctx.tier == "quick" else 60000
     seeds = [ctx.sub(("run", i)) for i in range(n)]
-    deadline = ctx.t0 + (95 if ctx.tier == "quick" else 3300)
+    deadline = ctx.t0 + (95 if ctx.tier == "quick" else 1500)
     res = runner.pmap(task, seeds, timeout=900, deadline=deadline)
     done = [r for r in res if r is not None]
     sig = set()
